@@ -389,6 +389,31 @@ func runPrecWrap(m *model.Model, s *ob.Set) {
 				}
 			}
 		}
+		// functions that narrow a method's count to 32 bits at all are the instances of this clause
+		narrowedCount := 0
+		for _, b := range fn.Blocks {
+			if !live[b.Index] {
+				continue
+			}
+			for _, in := range b.Instrs {
+				cv, ok := in.(*ssa.Convert)
+				if !ok {
+					continue
+				}
+				bt, ok := cv.Type().Underlying().(*types.Basic)
+				if !ok || (bt.Kind() != types.Uint32 && bt.Kind() != types.Int32) {
+					continue
+				}
+				if call, ok := stripConv(cv.X).(*ssa.Call); ok && model.BuiltinName(&call.Call) == "" {
+					if rt, ok := call.Type().Underlying().(*types.Basic); ok && rt.Info()&types.IsInteger != 0 {
+						narrowedCount++
+					}
+				}
+			}
+		}
+		if narrowedCount > 0 && len(countSites) == 0 {
+			s.Ok(R, m.FuncName(fn)+"/count", m.Pos(fn.Pos()), fmt.Sprintf("%d count(s) narrowed to 32 bits, none scaled by a constant in 32-bit arithmetic", narrowedCount))
+		}
 		if len(countSites) > 0 {
 			bo := countSites[0]
 			s.Bad(R, m.FuncName(fn)+"/count", m.InstrPos(bo), fmt.Sprintf("%s: a count returned by a method (a bit length, a digit count) is narrowed to 32 bits and multiplied by a constant in 32-bit arithmetic: the product wraps for large operands and the buffer or precision derived from it comes out too small", m.InstrPos(bo)))
@@ -1299,5 +1324,98 @@ func runMustUse(m *model.Model, s *ob.Set) {
 		}
 		c := "(*Decimal)." + n
 		s.Check(bad == "", R, c, m.Pos(fn.Pos()), fmt.Sprintf("%d exit(s), each after an operation on both mantissas", nret), bad+": the result is built from one operand alone")
+	}
+}
+
+// ---------------------------------------------------------------- WORKPREC
+
+func init() {
+	Register(&Rule{Name: "WORKPREC", Floor: 1, Run: runWorkPrec,
+		Doc: "the precision given to a temporary (SetPrec on a big.Float or a Decimal) is derived from a destination's Prec(), never from MinPrec() — the digits an operand happens to hold now say nothing about the accuracy the result needs"})
+}
+
+// runWorkPrec: every SetPrec whose argument is computed (not a constant) is followed back through
+// arithmetic, conversions, φs and max/min: reaching a call of MinPrec is a violation.
+func runWorkPrec(m *model.Model, s *ob.Set) {
+	const R = "WORKPREC"
+	for _, fn := range m.Funcs {
+		if !m.InDecimalPkg(fn) || len(fn.Blocks) == 0 || fn.Synthetic != "" {
+			continue
+		}
+		live := m.Live(fn)
+		n := 0
+		var bad []string
+		for _, b := range fn.Blocks {
+			if !live[b.Index] {
+				continue
+			}
+			for _, in := range b.Instrs {
+				call, ok := in.(*ssa.Call)
+				if !ok {
+					continue
+				}
+				cal := call.Call.StaticCallee()
+				if cal == nil || cal.Name() != "SetPrec" || cal.Signature.Recv() == nil || len(call.Call.Args) != 2 {
+					continue
+				}
+				arg := call.Call.Args[1]
+				if _, isC := arg.(*ssa.Const); isC {
+					continue
+				}
+				n++
+				seen := map[ssa.Value]bool{}
+				var fromMin func(v ssa.Value, d int) bool
+				fromMin = func(v ssa.Value, d int) bool {
+					if d == 0 || seen[v] {
+						return false
+					}
+					seen[v] = true
+					switch x := v.(type) {
+					case *ssa.Call:
+						if c2 := x.Call.StaticCallee(); c2 != nil && c2.Name() == "MinPrec" && c2.Signature.Recv() != nil {
+							return true
+						}
+						if bn := model.BuiltinName(&x.Call); bn == "max" || bn == "min" {
+							for _, a := range x.Call.Args {
+								if fromMin(a, d-1) {
+									return true
+								}
+							}
+						}
+						if c2 := x.Call.StaticCallee(); c2 != nil && m.InDecimalPkg(c2) && (c2.Name() == "max" || c2.Name() == "min" || c2.Name() == "umax32") {
+							for _, a := range x.Call.Args {
+								if fromMin(a, d-1) {
+									return true
+								}
+							}
+						}
+					case *ssa.BinOp:
+						return fromMin(x.X, d-1) || fromMin(x.Y, d-1)
+					case *ssa.Convert:
+						return fromMin(x.X, d-1)
+					case *ssa.ChangeType:
+						return fromMin(x.X, d-1)
+					case *ssa.Phi:
+						for _, e := range x.Edges {
+							if fromMin(e, d-1) {
+								return true
+							}
+						}
+					}
+					return false
+				}
+				if fromMin(arg, 8) {
+					bad = append(bad, fmt.Sprintf("%s: the precision of a temporary is computed from MinPrec(): the number of digits an operand holds at the moment, not the precision the result has to be accurate to", m.InstrPos(in)))
+				}
+			}
+		}
+		if n == 0 {
+			continue
+		}
+		if len(bad) == 0 {
+			s.Ok(R, m.FuncName(fn), m.Pos(fn.Pos()), fmt.Sprintf("%d computed SetPrec argument(s), none derived from MinPrec()", n))
+		} else {
+			s.Bad(R, m.FuncName(fn), m.Pos(fn.Pos()), bad[0], bad[1:]...)
+		}
 	}
 }
